@@ -122,6 +122,11 @@ func build(root string, tree []entry, fl flags) map[string]string {
 			// edited in the same clock tick as the last generation (or a checkout with one timestamp): not newer, so
 			// never "up to date" for -lazy
 			put(j("ok1_templ.go"), staleGo, t0)
+		case "epoch.templ":
+			// a file whose modification time is the Unix epoch (zeroed-timestamp archives, reproducible-build sandboxes)
+			put(j("epoch.templ"), strings.Replace(ok1Src, "Ok1", "Epoch", 1), time.Unix(0, 0))
+		case "pre-epoch.templ":
+			put(j("preepoch.templ"), strings.Replace(ok1Src, "Ok1", "PreEpoch", 1), time.Unix(-86400*365, 0))
 		case "other.go":
 			put(j("other.go"), otherGo, t0)
 		case "notes.txt":
@@ -242,6 +247,7 @@ func worker(trees [][]entry, cfgs []cfg, g, n int) {
 					violation("harness", "symlink: "+err.Error())
 				}
 			}
+			path += c.suffix
 			err := generatecmd.Run(context.Background(), quiet, generatecmd.Arguments{Path: path, WorkerCount: c.workers, KeepOrphanedFiles: c.fl.keep, Lazy: c.fl.lazy, IncludeVersion: c.fl.version})
 			runs++
 			if mustFail {
@@ -254,6 +260,9 @@ func worker(trees [][]entry, cfgs []cfg, g, n int) {
 			where := fmt.Sprintf("tree [%s] %s workers=%d", treeString(tree), c.fl, c.workers)
 			if c.symlink {
 				where += " path=symlink-to-the-project"
+			}
+			if c.suffix != "" {
+				where += " path=<project>" + c.suffix
 			}
 			if (err != nil) != mustFail {
 				violation("exit-status", fmt.Sprintf("%s: Run returned %v, a file that cannot be generated present: %v", where, err, mustFail))
@@ -285,6 +294,7 @@ type cfg struct {
 	fl      flags
 	workers int
 	symlink bool // the path given to the command is a symbolic link to the project directory
+	suffix  string // appended to the (absolute) path: the same directory spelled in an unclean way
 }
 
 func main() {
@@ -415,6 +425,11 @@ func treesAndConfigs(thorough bool) ([][]entry, []cfg) {
 			}
 		}
 	}
+	for _, d := range []string{"", "a", "vendor"} {
+		for _, k := range []string{"epoch.templ", "pre-epoch.templ"} {
+			trees = append(trees, []entry{{k, d}}, []entry{{k, d}, {"ok1.templ", d}}, []entry{{k, d}, {"bad.templ", ""}})
+		}
+	}
 	if thorough {
 		var small []entry
 		for _, k := range kinds {
@@ -445,12 +460,13 @@ func treesAndConfigs(thorough bool) ([][]entry, []cfg) {
 	for _, k := range []bool{false, true} {
 		for _, l := range []bool{false, true} {
 			for _, v := range []bool{false, true} {
-				cfgs = append(cfgs, cfg{flags{k, l, v}, 2, false})
+				cfgs = append(cfgs, cfg{flags{k, l, v}, 2, false, ""})
 			}
 		}
 	}
-	cfgs = append(cfgs, cfg{flags{}, 1, false}, cfg{flags{}, 4, false}, cfg{flags{true, true, false}, 1, false}, cfg{flags{true, true, false}, 4, false})
-	cfgs = append(cfgs, cfg{flags{}, 2, true}, cfg{flags{false, true, true}, 1, true})
+	cfgs = append(cfgs, cfg{flags{}, 1, false, ""}, cfg{flags{}, 4, false, ""}, cfg{flags{true, true, false}, 1, false, ""}, cfg{flags{true, true, false}, 4, false, ""})
+	cfgs = append(cfgs, cfg{flags{}, 2, true, ""}, cfg{flags{false, true, true}, 1, true, ""})
+	cfgs = append(cfgs, cfg{flags{}, 2, false, "/"}, cfg{flags{}, 1, false, "/."}, cfg{flags{true, false, false}, 2, false, "//"})
 	return trees, cfgs
 }
 
